@@ -20,6 +20,68 @@ MATH = {"floor", "ceil", "floorl", "ceill", "fmod", "fmodl", "round", "roundl", 
 ALLOWED_CALLS = set(NAMING) | {"gmtime", "snprintf", "fprintf"}
 
 
+IMPURE_CALLS = ("time", "gettimeofday", "clock_gettime", "rand", "random", "getenv")
+
+
+def pure_helper(tu, name, seen=None):
+    """A library function that is a function of its arguments only: no writer object, no globals or static locals, no clock,
+    calls only <math.h> or other pure helpers (results through pointer parameters are fine)."""
+    seen = seen if seen is not None else set()
+    if name in seen:
+        return True
+    seen.add(name)
+    fn = tu.functions.get(name)
+    if fn is None:
+        return False
+    params = [p for p in fn.children if p.kind == "ParmVarDecl"]
+    if any("Digital_rf_write_object" in p.type for p in params):
+        return False
+    local = {p.name for p in params}
+    for d in fn.find("VarDecl"):
+        if d.d.get("storageClass") == "static":
+            return False
+        local.add(d.name)
+    for x in fn.walk():
+        if x.kind == "DeclRefExpr" and x.refkind in ("VarDecl", "ParmVarDecl") and x.ref not in local:
+            return False
+        if x.kind == "CallExpr":
+            if x.callee in IMPURE_CALLS:
+                return False
+            if x.callee in tu.functions:
+                if not pure_helper(tu, x.callee, seen):
+                    return False
+            elif x.callee not in MATH and x.callee not in ("fprintf", "snprintf", "gmtime"):
+                return False
+    return True
+
+
+def naming_set(tu):
+    """the naming functions plus the pure helpers they (transitively) call"""
+    out = list(NAMING)
+    work = list(NAMING)
+    while work:
+        fn = tu.fn(work.pop())
+        for c in fn.calls():
+            if c.callee in tu.functions and c.callee not in out and pure_helper(tu, c.callee):
+                out.append(c.callee)
+                work.append(c.callee)
+    return out
+
+
+def alias_path(fn, node):
+    """path of `node`, seen through a const local that is a plain copy of an access path (const uint64_t n = obj->field)"""
+    s = node.strip(casts=True)
+    p = s.path()
+    if p is None or "->" in p or "[" in p:
+        return p
+    defs = _single_def(fn, p)
+    if len(defs) == 1:
+        q = defs[0][1].strip(casts=True).path()
+        if q and "->" in q and not any(path == p for path, n_, rhs, kind in clib.stores(fn)):
+            return q
+    return p
+
+
 def _node_of(g, ast_node):
     best = None
     for n in g.nodes:
@@ -84,7 +146,7 @@ def output_slice(fn):
 def r1_integer_only(repo=None):
     r = Rule("C04.R1", "file/sub-directory names and sample<->time conversions use integer arithmetic only (typed slice)")
     tu = cfront.lib(repo)
-    for fname in NAMING:
+    for fname in naming_set(tu):
         fn = tu.fn(fname)
         rel, outs, _ = output_slice(fn)
         # expressions in the slice: all stores to relevant variables + outputs
@@ -133,15 +195,16 @@ def r1_integer_only(repo=None):
 def r2_pure_function(repo=None):
     r = Rule("C04.R2", "names are a pure function of (sample index, rate, cadences)")
     tu = cfront.lib(repo)
-    for fname in NAMING:
+    names = naming_set(tu)
+    for fname in names:
         fn = tu.fn(fname)
         bad = []
         for x in fn.walk():
             if x.kind == "MemberExpr" and (x.children and x.children[0].path() == OBJ):
                 if x.name not in clib.CONFIG_FIELDS:
                     bad.append((x, "reads writer state field `%s` (not a configuration field)" % x.name))
-            if x.kind == "CallExpr" and x.callee not in ALLOWED_CALLS:
-                if x.callee in ("time", "gettimeofday", "clock_gettime", "rand", "random", "getenv"):
+            if x.kind == "CallExpr" and x.callee not in ALLOWED_CALLS and x.callee not in names:
+                if x.callee in IMPURE_CALLS:
                     bad.append((x, "calls %s()" % x.callee))
                 elif x.callee in tu.functions:
                     bad.append((x, "calls %s(), which is not a naming function" % x.callee))
@@ -199,7 +262,7 @@ def r3_floor_ceil_pairing(repo=None):
     floors = fn.calls(("digital_rf_get_timestamp_floor",))
     ceils = fn.calls(("digital_rf_get_sample_ceil",))
     F = "digital_rf_get_subdir_file"
-    if len(floors) != 1 or floors[0].args[0].path() != "global_sample":
+    if len(floors) != 1 or alias_path(fn, floors[0].args[0]) != "global_sample":
         r.violation(LIB, F, "floor calls: %d" % len(floors), "the sample's timestamp is not obtained by exactly one "
                     "digital_rf_get_timestamp_floor(global_sample, ...) call", line=fn.line)
     else:
@@ -234,7 +297,7 @@ def r3_floor_ceil_pairing(repo=None):
             msv = a1.children[0].path() if a1.children[1].intval() == 1000000000 else a1.children[1].path()
         out = c.args[4].strip(casts=True)
         outv = out.children[0].path() if out.kind == "UnaryOperator" and out.opcode == "&" else None
-        rate = (c.args[2].path(), c.args[3].path())
+        rate = (alias_path(fn, c.args[2]), alias_path(fn, c.args[3]))
         return a0, msv, outv, rate
 
     c_this = c_next = None
@@ -252,7 +315,7 @@ def r3_floor_ceil_pairing(repo=None):
                 nxt = _single_def(fn, d0[1])
                 if len(nxt) == 1:
                     e = nxt[0][1].strip(casts=True)
-                    if e.kind == "BinaryOperator" and e.opcode == "+" and {e.children[0].path(), e.children[1].path()} == {
+                    if e.kind == "BinaryOperator" and e.opcode == "+" and {alias_path(fn, e.children[0]), alias_path(fn, e.children[1])} == {
                             file_ms, OBJ + "->file_cadence_millisecs"}:
                         c_next = (c, outv)
     if c_this:
